@@ -289,6 +289,16 @@ def gen_config(rng, opts=None):
                 for a in ('provides', 'endpoint_provides', 'render_provides'):
                     mb[a] = list(ma[a]) if same else []
                 cfg['unique_dup'] = [ma['mid'], mb['mid']]
+    for lv in levels[:-1]:
+        if rng.chance(0.3):
+            lv['embed'] = rng.pick(['subapp', 'subapp-own-slashes', 'subapp-own-slashes'])
+    if opts.get('varkw', True) and rng.chance(0.3):
+        # some functions also take **kwargs: that declares no name - such a function is passed what it names, nothing else
+        for fn in [endpoint, render] + [m.get(ph) for m in mws for ph in ('request', 'endpoint', 'render')]:
+            if fn and fn.get('form', 'function') in ('function', 'method', 'lambda', 'staticmethod') and rng.chance(0.4):
+                fn['varkw'] = True
+    if opts.get('rebound', True) and rng.chance(0.2):
+        cfg['rebound_elsewhere'] = True
     if render is not None and rng.chance(0.25):
         route['render_via_factory'] = True      # render argument is a template name, the function comes from a render factory
     used = set(NAMES) & (set(bindings) | set(route_res) | set(x for l in level_res for x in l) |
